@@ -508,3 +508,6 @@ def run(ctx):
     r8 = ctx.rule("R8", "no job / finished job and no pending dependency: shown completed and not submitted iff should_run is False")
     from .schedtable import rule_decision_table
     rule_decision_table(ctx, r8)
+    # ... where "finished job" is what the scheduler says about the target's OWN job (each tracked id gets the state of its own job; C08.R1/R2)
+    from .shared import import_rules
+    import_rules(ctx, r8, "C08", only={"R1", "R2"})
